@@ -142,6 +142,134 @@ MinimalSym(g) ==
      /\ \A s, t \in N : s # t => RL[s] # RL[t]
 
 (***************************************************************************)
+(* SYMBOLIC semantics: languages compared without enumerating their words. *)
+(* A language descriptor is  [g |-> graph or NoGraph, k |-> K]  where K is *)
+(* a set of CONTINUATIONS; a continuation is a sequence of AST elements    *)
+(* (the ASTs above plus [t |-> "node", s |-> state of g]) read as their    *)
+(* concatenation, and K denotes the union.  PD is the Antimirov partial    *)
+(* derivative by one atom; two descriptors are equal iff the pairs of      *)
+(* derivative sets reachable from them agree on nullability.  The number   *)
+(* of reachable pairs is small even when the language has millions of      *)
+(* words, so class-converted runs are decided exactly.  (Cross-checked     *)
+(* against the explicit-set semantics LangOf in MC_Lang.)                  *)
+(***************************************************************************)
+NoGraph == [start |-> 0, finals |-> <<>>, nodes |-> <<>>, edges |-> <<>>, syms |-> <<>>]
+
+RECURSIVE SymAst(_)
+SymAst(sym) ==
+  LET body == IF sym.nest = <<>>
+              THEN [t |-> "cat", xs |-> [i \in DOMAIN sym.u |-> [t |-> "cls", s |-> sym.u[i]]]]
+              ELSE [t |-> "cat", xs |-> [i \in DOMAIN sym.nest |-> SymAst(sym.nest[i])]]
+  IN IF sym.lo = 1 /\ sym.hi = 1 THEN body
+     ELSE [t |-> "rep", x |-> body, lo |-> sym.lo, hi |-> sym.hi, g |-> TRUE]
+(* the unit (chars) reading of a symbol, ignoring its nested re-factoring *)
+UnitAst(sym) == [t |-> "cat", xs |-> [i \in DOMAIN sym.u |-> [t |-> "cls", s |-> sym.u[i]]]]
+SymsAst(syms) == [t |-> "cat", xs |-> [i \in DOMAIN syms |-> SymAst(syms[i])]]
+ClustersAst(cl) == [t |-> "alt", xs |-> [i \in DOMAIN cl |-> SymsAst(cl[i])]]
+
+RECURSIVE Nullable(_, _)
+Nullable(g, e) ==
+  CASE e.t \in {"eps", "bol", "eol"} -> TRUE
+    [] e.t = "cls" -> FALSE
+    [] e.t = "cat" -> \A i \in DOMAIN e.xs : Nullable(g, e.xs[i])
+    [] e.t = "alt" -> \E i \in DOMAIN e.xs : Nullable(g, e.xs[i])
+    [] e.t = "rep" -> e.lo = 0 \/ Nullable(g, e.x)
+    [] e.t = "cap" -> Nullable(g, e.x)
+    [] e.t = "lit" -> \A i \in DOMAIN e.syms : Nullable(g, SymAst(e.syms[i]))
+    [] e.t = "node" -> e.s \in ToSet(g.finals)
+
+RECURSIVE PDe(_, _, _), PDs(_, _, _)
+(* partial derivative of ONE element: a set of continuations *)
+PDe(g, a, e) ==
+  CASE e.t \in {"eps", "bol", "eol"} -> {}
+    [] e.t = "cls" -> IF a \in ToSet(e.s) THEN {<<>>} ELSE {}
+    [] e.t = "cat" -> PDs(g, a, e.xs)
+    [] e.t = "alt" -> UNION {PDe(g, a, e.xs[i]) : i \in DOMAIN e.xs}
+    [] e.t = "cap" -> PDe(g, a, e.x)
+    [] e.t = "lit" -> PDs(g, a, [i \in DOMAIN e.syms |-> SymAst(e.syms[i])])
+    [] e.t = "rep" ->
+         IF e.hi = 0 THEN {}
+         ELSE LET lo2 == IF e.lo > 0 /\ ~Nullable(g, e.x) THEN e.lo - 1 ELSE 0
+                  hi2 == IF e.hi < 0 THEN e.hi ELSE e.hi - 1
+                  rest == IF hi2 = 0 THEN <<>>
+                          ELSE <<[t |-> "rep", x |-> e.x, lo |-> lo2, hi |-> hi2, g |-> e.g]>>
+              IN {k \o rest : k \in PDe(g, a, e.x)}
+    [] e.t = "node" ->
+         UNION {{k \o <<[t |-> "node", s |-> ed[2]]>> : k \in PDe(g, a, SymAst(g.syms[ed[3]]))}
+                : ed \in OutEdges(g, e.s)}
+(* partial derivative of a continuation *)
+PDs(g, a, seq) ==
+  IF seq = <<>> THEN {}
+  ELSE {k \o Tail(seq) : k \in PDe(g, a, Head(seq))}
+       \cup (IF Nullable(g, Head(seq)) THEN PDs(g, a, Tail(seq)) ELSE {})
+
+StepK(g, a, K) == UNION {PDs(g, a, k) : k \in K}
+
+(* atoms that can begin a word of an element / continuation / continuation set *)
+RECURSIVE FirstE(_, _), FirstS(_, _)
+FirstE(g, e) ==
+  CASE e.t \in {"eps", "bol", "eol"} -> {}
+    [] e.t = "cls" -> ToSet(e.s)
+    [] e.t = "cat" -> FirstS(g, e.xs)
+    [] e.t = "alt" -> UNION {FirstE(g, e.xs[i]) : i \in DOMAIN e.xs}
+    [] e.t = "cap" -> FirstE(g, e.x)
+    [] e.t = "lit" -> FirstS(g, [i \in DOMAIN e.syms |-> SymAst(e.syms[i])])
+    [] e.t = "rep" -> IF e.hi = 0 THEN {} ELSE FirstE(g, e.x)
+    [] e.t = "node" -> UNION {FirstE(g, SymAst(g.syms[ed[3]])) : ed \in OutEdges(g, e.s)}
+FirstS(g, seq) ==
+  IF seq = <<>> THEN {}
+  ELSE FirstE(g, Head(seq)) \cup (IF Nullable(g, Head(seq)) THEN FirstS(g, Tail(seq)) ELSE {})
+FirstK(g, K) == UNION {FirstS(g, k) : k \in K}
+NullK(g, K) == \E k \in K : \A i \in DOMAIN k : Nullable(g, k[i])
+
+DescAst(e)      == [g |-> NoGraph, k |-> {<<e>>}]
+DescGraph(gr)   == [g |-> gr, k |-> {<<[t |-> "node", s |-> gr.start]>>}]
+DescNode(gr, s) == [g |-> gr, k |-> {<<[t |-> "node", s |-> s]>>}]
+
+(* does the word (sequence of atoms) belong to the language? *)
+RECURSIVE AcceptsFrom(_, _, _, _)
+AcceptsFrom(g, K, w, i) ==
+  IF K = {} THEN FALSE
+  ELSE IF i > Len(w) THEN NullK(g, K)
+  ELSE AcceptsFrom(g, StepK(g, w[i], K), w, i + 1)
+Accepts(D, w) == AcceptsFrom(D.g, D.k, w, 1)
+HasEps(D) == NullK(D.g, D.k)
+
+(* A continuation set is LIVE if some word is accepted from it (not needed for equality: two    *)
+(* languages are equal iff all reachable pairs of derivative sets agree on nullability).         *)
+RECURSIVE LiveNode(_, _, _)
+LiveNode(g, s, fuel) ==
+  IF fuel = 0 THEN FALSE
+  ELSE s \in ToSet(g.finals) \/ \E ed \in OutEdges(g, s) : LiveNode(g, ed[2], fuel - 1)
+LiveK(g, K) ==
+  \E k \in K : \A i \in DOMAIN k : (k[i].t = "node" => LiveNode(g, k[i].s, Len(g.nodes) + 1))
+
+(* Equality of two descriptors over the atoms 1..n.  With modEps the empty word is ignored.     *)
+RECURSIVE EqGo(_, _, _, _, _)
+EqGo(g1, g2, n, front, seen) ==
+  IF front = {} THEN TRUE
+  ELSE LET next == UNION {{<<StepK(g1, a, p[1]), StepK(g2, a, p[2])>> :
+                               a \in FirstK(g1, p[1]) \cup FirstK(g2, p[2])} : p \in front}
+           fresh == {p \in next : p \notin seen /\ ~(p[1] = {} /\ p[2] = {})}
+       IN /\ \A p \in fresh : NullK(g1, p[1]) = NullK(g2, p[2])
+          /\ EqGo(g1, g2, n, fresh, seen \cup fresh)
+EqD(D1, D2, n, modEps) ==
+  LET root == <<D1.k, D2.k>> IN
+  /\ (modEps \/ NullK(D1.g, D1.k) = NullK(D2.g, D2.k))
+  /\ EqGo(D1.g, D2.g, n, {root}, {root})
+
+RECURSIVE TrimAst(_)
+TrimAst(e) ==
+  CASE e.t \in {"eps", "bol", "eol"} -> TRUE
+    [] e.t = "cls" -> e.s # <<>>
+    [] e.t \in {"cat"} -> \A i \in DOMAIN e.xs : TrimAst(e.xs[i])
+    [] e.t = "alt" -> e.xs # <<>> /\ \A i \in DOMAIN e.xs : TrimAst(e.xs[i])
+    [] e.t = "rep" -> (e.hi < 0 \/ e.hi >= e.lo) /\ TrimAst(e.x)
+    [] e.t = "cap" -> TrimAst(e.x)
+    [] e.t = "lit" -> \A i \in DOMAIN e.syms : TrimAst(SymAst(e.syms[i]))
+    [] OTHER -> FALSE
+
+(***************************************************************************)
 (* Ordered semantics of the regex crate: leftmost-first, greedy.           *)
 (* Ends(e, w, i) is the sequence of end offsets of matches of e starting   *)
 (* at offset i (0-based) of word w, in the engine's order of preference.   *)
